@@ -11,7 +11,9 @@
    write / TLS handshake / write inside TLS), (what was sent, with the values
    that depend on server data).  External code is a Section variable: the BER parser
    (yasna), the TLS handshake (native-tls) and the CredSSP exchange (C07).  The model is
-   the model of the REPAIRED code (fix: commits for defects #4, #5, #7, #8, #9 of DESIGN.md). *)
+   the model of the REPAIRED code (fix: commits for defects #4, #5, #7, #8, #9, #25a, #38 of DESIGN.md:
+   the I/O channel id is the one the server network data announces, the licence preamble flags are
+   read and not checked). *)
 From RdpV Require Import Base Msg LayoutsGlobal LayoutsConnect Link Tpkt Global.
 Open Scope string_scope.
 Open Scope list_scope.
@@ -35,13 +37,12 @@ Inductive cmsg :=
 | CJ (initiator channel : N)         (* channel-join request *)
 | INFO (initiator channel len : N).  (* client info PDU on the I/O channel *)
 
-Definition GLOBAL_CHANNEL : N := 1003.
 Definition ci_len : N := 366.        (* connect-initial with a 16-character client name field *)
 Definition info_len (c : config) (v5 : bool) : N :=
   32 + (if restricted_admin c then 0 else 2 * cred_units c) + (if v5 then 190 else 0).
 
 (* what is known about the server once MCS is connected *)
-Record server_data := mkServerData { channel_ids : list N; rdp_v5 : bool }.
+Record server_data := mkServerData { global_id : N; channel_ids : list N; rdp_v5 : bool }.
 
 (* credential-bearing messages: NTLM tokens and CredSSP credentials, and the Client Info
    PDU (clear-text domain / user name / password) *)
@@ -333,9 +334,10 @@ Definition gcc_server_data (cn : option msg * option msg) : outcome server_data 
               match trame_of arr with
               | None => Err EInvalidCast
               | Some l =>
+                  obind (cast_num 16 (get net "MCSChannelId")) (fun io =>
                   obind (channel_id_list l) (fun ids =>
                   obind (cast_num 32 (get core "rdpVersion")) (fun v =>
-                  Ok (mkServerData ids (v =? RDP_VERSION_5PLUS_WIRE))))
+                  Ok (mkServerData io ids (v =? RDP_VERSION_5PLUS_WIRE)))))
               end
           end
       end
@@ -425,11 +427,11 @@ Definition mcs_connect (c : config) (selected : N) : M (N * server_data) :=
   bind recv_x224 (fun pl2 =>
   bind (lift (expect_raw pl2, 0)) (fun b2 =>
   bind (lift (read_attach_user_confirm b2, 0)) (fun uid =>
-  bind (join_channels uid (if user_first c then [uid; GLOBAL_CHANNEL] else [GLOBAL_CHANNEL; uid])) (fun _ =>
+  bind (join_channels uid (if user_first c then [uid; global_id sd] else [global_id sd; uid])) (fun _ =>
   ret (uid, sd))))))))))).
 
 (* mcs::Client::read while only "global" and "user" are known *)
-Definition mcs_read_any (uid : N) (pl : payload) : outcome payload :=
+Definition mcs_read_any (uid io : N) (pl : payload) : outcome payload :=
   match pl with
   | FastPath f b => Ok (FastPath f b)
   | Raw b =>
@@ -441,7 +443,7 @@ Definition mcs_read_any (uid : N) (pl : payload) : outcome payload :=
           else
             obind (per_read_integer_16 1001 r0) (fun x1 =>
             obind (per_read_integer_16 0 (snd x1)) (fun x2 =>
-              if negb ((fst x2 =? GLOBAL_CHANNEL) || (fst x2 =? uid)) then Err EUnknown
+              if negb ((fst x2 =? io) || (fst x2 =? uid)) then Err EUnknown
               else obind (per_read_u8 (snd x2)) (fun x3 =>
                    obind (per_read_length (snd x3)) (fun x4 => Ok (Raw (snd x4))))))
       end
@@ -503,10 +505,10 @@ Definition sec_license (input : bytes) : outcome unit * N :=
   | Spin => (Spin, snd r)
   end.
 
-Definition sec_connect (c : config) (uid : N) (v5 : bool) : M unit :=
-  bind (emit (INFO (uid - 1001) GLOBAL_CHANNEL (info_len c v5))) (fun _ =>
+Definition sec_connect (c : config) (uid io : N) (v5 : bool) : M unit :=
+  bind (emit (INFO (uid - 1001) io (info_len c v5))) (fun _ =>
   bind recv_x224 (fun pl =>
-  bind (lift (mcs_read_any uid pl, 0)) (fun pl' =>
+  bind (lift (mcs_read_any uid io pl, 0)) (fun pl' =>
   bind (lift (expect_raw pl', 0)) (fun b =>
   lift (sec_license b))))).
 
@@ -514,7 +516,7 @@ Definition sec_connect (c : config) (uid : N) (v5 : bool) : M unit :=
 Definition connect (c : config) : M (N * server_data) :=
   bind (x224_connect c) (fun sel =>
   bind (mcs_connect c sel) (fun us =>
-  bind (sec_connect c (fst us) (rdp_v5 (snd us))) (fun _ =>
+  bind (sec_connect c (fst us) (global_id (snd us)) (rdp_v5 (snd us))) (fun _ =>
   ret us))).
 
 Definition run_connect (c : config) (cs : stream) : outcome (N * server_data) * cst :=
